@@ -74,14 +74,20 @@ let deadlines (s : gw_state) : int list =
 (* outputs of one step: are two of them at the same instant but from different firings? *)
 let out_time = function OutSn (t, _) | OutMq (t, _) | OutCancel (t, _) | OutEnd t -> int_of_n t
 
-type profile = { p_auth : int; p_sleep : int; p_broker_pub : int; p_preconnect : int; p_will : int; p_malformed : int }
+type profile = { p_auth : int; p_sleep : int; p_broker_pub : int; p_preconnect : int; p_will : int; p_malformed : int;
+                 p_exhaust : bool; p_vanish : bool }
 
 let gen_history (idx : int) (prof : profile) (oc : out_channel) =
   let auth = rnd 100 < prof.p_auth in
   let has_user = rnd 3 = 0 in
   let rdelay = pick [300; 1000; 1500] in
   let rcount = pick [0; 1; 2; 2; 3] in
-  let predef = gen_predef () in
+  let predef =
+    if prof.p_exhaust then
+      (* all but a handful of topic IDs are predefined for every client: a few registrations exhaust the space *)
+      Printf.sprintf "x2a:%d-65534=%s%s" (4 + rnd 10) (hex_of_bytes (bs "p/x"))
+        (if coin () then ";" ^ hex_of_bytes (bs "cl1") ^ ":2=" ^ hex_of_bytes (bs "p/1") else "")
+    else gen_predef () in
   let hline = Printf.sprintf "H %d auth=%d user=%s pass=%s rdelay=%d rcount=%d predef=%s" idx (if auth then 1 else 0)
       (if has_user then hex_of_bytes (bs "gwuser") else "-") (if has_user && coin () then hex_of_bytes (bs "gwpass") else "-")
       rdelay rcount predef in
@@ -121,7 +127,8 @@ let gen_history (idx : int) (prof : profile) (oc : out_channel) =
   let terminal = ref false in
   let connect_pkt () =
     let dur = pickw [ (1, 0); (3, 1); (3, 2); (3, 3); (3, 5); (2, 10); (3, 60) ] in
-    Connect (rnd 100 < prof.p_will, coin (), nn 1, nn dur, bs cid) in
+    (* now and then the peer re-CONNECTs under another client ID *)
+    Connect (rnd 100 < prof.p_will, coin (), nn 1, nn dur, bs (if rnd 10 = 0 then pick clients else cid)) in
   let auth_pkt () =
     match rnd 8 with
     | 0 -> Auth (nn 0, bs "OTHER", bs "x")
@@ -142,7 +149,8 @@ let gen_history (idx : int) (prof : profile) (oc : out_channel) =
   let subscribe () =
     let qos = pickw [ (3, 0); (3, 1); (3, 2); (1, 3) ] in
     match rnd 6 with
-    | 0 | 1 | 2 -> Subscribe (rnd 5 = 0, nn qos, nn 0, nn (fresh_mid ()), nn 0, bs (pick names))
+    | 0 | 1 | 2 -> Subscribe (rnd 5 = 0, nn qos, nn 0, nn (fresh_mid ()), nn 0,
+                              bs (if prof.p_exhaust && coin () then "sub/" ^ string_of_int (rnd 40) else pick names))
     | 3 -> Subscribe (false, nn qos, nn 1, nn (fresh_mid ()), nn (pick [1; 2; 3; 4; 5; 6; 9]), [])
     | 4 -> Subscribe (false, nn qos, nn 2, nn (fresh_mid ()), encode_short (bs (pick shorts)), [])
     | _ -> Subscribe (false, nn qos, nn 0, nn (some_mid ()), nn 0, bs (pick names)) in
@@ -158,7 +166,7 @@ let gen_history (idx : int) (prof : profile) (oc : out_channel) =
       | 2 | 3 -> pick ["p/1"; "p/2"; "p/any"; "pq"; "p/3"]
       | 4 | 5 | 6 -> pick names
       | 7 -> (match nmap_to_list !s.gw_registered with [] -> pick names | l -> let (_, nm) = pick l in String.concat "" (List.map (fun x -> String.make 1 (Char.chr (int_of_n x))) nm))
-      | _ -> "new/" ^ string_of_int (rnd 4) in
+      | _ -> "new/" ^ string_of_int (rnd (if prof.p_exhaust then 40 else 4)) in
     (* a conforming broker never uses packet identifier 0 *)
     let mid = if qos = 0 then 0 else if rnd 4 = 0 then max 1 (some_mid ()) else fresh_mid () in
     MqPublish (rnd 8 = 0, nn qos, coin (), bs topic, nn mid, payload ()) in
@@ -187,6 +195,7 @@ let gen_history (idx : int) (prof : profile) (oc : out_channel) =
                 (2, `WillTopic); (3, `BrokerStuff); (2, `Adv); (prof.p_malformed, `Malformed) ]
       else if pending_connect then
         pickw [ (30, `Connack); (12, `Auth); (12, `WillTopic); (12, `WillMsg); (5, `Connect); (6, `Silence); (4, `PreIllegal);
+                (if connected () then 2 else 0), `Sleep;
                 (3, `BrokerStuff); (5, `Adv); (2, `Disconnect0); (prof.p_malformed, `Malformed); (2, `Terminal) ]
       else if asleep then
         pickw [ (25, `Pingreq); (25, `BrokerPublish); (8, `Adv); (8, `BigAdv); (5, `Connect); (5, `Disconnect0); (5, `Sleep);
@@ -212,7 +221,8 @@ let gen_history (idx : int) (prof : profile) (oc : out_channel) =
                                  Disconnect (nn 5); Regack (nn 1, nn 1, nn 0); Puback (nn 1, nn 1, nn 0); unsubscribe ();
                                  Pubrec (nn 1); Pubcomp (nn 1)]))
     | `Register ->
-      let nm = match rnd 6 with 0 -> "s/+" | 1 -> String.make nlen 'n' | _ -> pick names in
+      let nm = if prof.p_exhaust && rnd 3 > 0 then "r/" ^ string_of_int (rnd 40) else
+          match rnd 6 with 0 -> "s/+" | 1 -> String.make nlen 'n' | _ -> pick names in
       emit_or_skip (ev_sn (Register (nn 0, nn (fresh_mid ()), bs nm)))
     | `ClientPublish -> emit_or_skip (ev_sn (client_publish ()))
     | `Subscribe -> emit_or_skip (ev_sn (subscribe ()))
@@ -222,7 +232,8 @@ let gen_history (idx : int) (prof : profile) (oc : out_channel) =
     | `Disconnect0 -> emit_or_skip (ev_sn (Disconnect (nn 0))); terminal := true
     | `Sleep ->
       let k = int_of_n !s.gw_keepalive in
-      let d = pickw [ (3, max 1 (k - 1)); (2, k); (4, k + 1); (3, 2 * k + 1); (2, 3 * k + 2); (1, 1) ] in
+      let d = pickw [ (3, max 1 (k - 1)); (2, k); (4, k + 1); (3, 2 * k + 1); (2, 3 * k + 2); (1, 1);
+                      ((if prof.p_vanish then 8 else 0), 5 * k + 20 + rnd 100) ] in
       emit_or_skip (ev_sn (Disconnect (nn d)))
     | `ClientAck ->
       let mid = some_mid () in
@@ -255,20 +266,28 @@ let gen_history (idx : int) (prof : profile) (oc : out_channel) =
   done;
   (* let a terminating session finish (and be observed) *)
   if !s.gw_ending <> None then adv_safe (101 + rnd 50)
+  else if prof.p_vanish && not !s.gw_ended then begin
+    (* the client vanishes: a long silence, at the end of which the broker would have given up *)
+    adv_safe (1000 * (20 + rnd 200) + rnd 900);
+    if !s.gw_ending = None && not !s.gw_ended && coin () then (ignore (emit "MQEOF"); adv_safe (101 + rnd 50)) end
   else if rnd 3 = 0 then adv_safe (pick [50; 1200; 5100]);
   output_string oc "END\n"
 
 let profiles = [|
-  { p_auth = 0; p_sleep = 4; p_broker_pub = 14; p_preconnect = 10; p_will = 25; p_malformed = 2 };   (* general *)
-  { p_auth = 100; p_sleep = 2; p_broker_pub = 6; p_preconnect = 25; p_will = 50; p_malformed = 2 };  (* connect exchange / auth *)
-  { p_auth = 10; p_sleep = 25; p_broker_pub = 25; p_preconnect = 5; p_will = 10; p_malformed = 1 };  (* sleep cycles *)
-  { p_auth = 20; p_sleep = 3; p_broker_pub = 35; p_preconnect = 5; p_will = 10; p_malformed = 1 };   (* broker publishes, retries *)
+  { p_auth = 0; p_sleep = 4; p_broker_pub = 14; p_preconnect = 10; p_will = 25; p_malformed = 2; p_exhaust = false; p_vanish = false };   (* general *)
+  { p_auth = 100; p_sleep = 2; p_broker_pub = 6; p_preconnect = 25; p_will = 50; p_malformed = 2; p_exhaust = false; p_vanish = false };  (* connect exchange / auth *)
+  { p_auth = 10; p_sleep = 25; p_broker_pub = 25; p_preconnect = 5; p_will = 10; p_malformed = 1; p_exhaust = false; p_vanish = false };  (* sleep cycles *)
+  { p_auth = 20; p_sleep = 3; p_broker_pub = 35; p_preconnect = 5; p_will = 10; p_malformed = 1; p_exhaust = false; p_vanish = false };   (* broker publishes, retries *)
+  { p_auth = 10; p_sleep = 30; p_broker_pub = 10; p_preconnect = 3; p_will = 5; p_malformed = 0; p_exhaust = false; p_vanish = true };   (* long sleeps, the client vanishes *)
 |]
 
 let run (seed : int) (n : int) (out : string) =
   seed_rng seed;
   let oc = if out = "-" then stdout else open_out out in
   for idx = 0 to n - 1 do
-    gen_history idx profiles.(idx mod Array.length profiles) oc
+    if idx mod 60 = 59 then
+      gen_history idx { p_auth = 0; p_sleep = 6; p_broker_pub = 30; p_preconnect = 2; p_will = 5; p_malformed = 0;
+                        p_exhaust = true; p_vanish = false } oc   (* topic-ID exhaustion *)
+    else gen_history idx profiles.(idx mod Array.length profiles) oc
   done;
   if out <> "-" then close_out oc
